@@ -563,6 +563,55 @@ def _const_values(s, out):
     return out
 
 
+def fold_off(region, before, after):
+    """A constant-arithmetic step on a + - * / node whose one new float constant is NOT the correctly
+    rounded result of any two constants of the rewritten node: further than 2^-50 (relative) from every
+    c1 op c2 computed exactly from the binary values of the doubles.  One IEEE operation on operands that
+    are exactly representable is correctly rounded (2^-53), so such a constant is not rounding slack.
+    Returns (F, nearest exact result, relative distance) or None (not decidable / not off)."""
+    from .shadow import constants
+
+    if region is None or region[0] not in ("Add", "Subtract", "Multiply", "Divide"):
+        return None
+    news = new_floats(before, after)
+    if len(news) != 1:
+        return None
+    F = news[0]
+    consts = []
+    for tag, v in constants(region):
+        if not isinstance(v, Fraction):
+            return None
+        if v != 0 and (v.numerator.bit_length() > 1100 or v.denominator.bit_length() > 1100):
+            return None
+        try:
+            if Fraction(float(v)) != v:
+                return None          # an operand that is itself rounded on its way into the operation
+        except (OverflowError, ValueError):
+            return None
+        consts.append(v)
+    if not 2 <= len(consts) <= 6:
+        return None
+    best = None
+    for i, a in enumerate(consts):
+        for j, b in enumerate(consts):
+            if i == j:
+                continue
+            rs = [a + b, a - b, a * b]
+            if b != 0:
+                rs.append(a / b)
+            for q in rs:
+                q = abs(q)
+                if q != 0 and not (Fraction(1, 10 ** 290) < q < Fraction(10 ** 290)):
+                    return None      # under/overflow region: anything may legitimately happen
+                d = abs(q - F)
+                if d == 0 or (q != 0 and d <= q / 2 ** 50):
+                    return None      # within rounding of a legitimate fold
+                rel = (d / q) if q != 0 else Fraction(1)
+                if best is None or rel < best[2]:
+                    best = (F, q, rel)
+    return best
+
+
 def resolve_folds(region, before, after):
     """Try to give every new float constant of `after` its exact value: the exact result of
     c1 op c2 (op in + - * / ^, either order, optionally negated) over the constants of `region`
